@@ -139,3 +139,59 @@ package interpreter
 //@ schema bitop_unbounded(T=UIntValue, M=BitwiseAnd, F=tcand, LEM=L_uint_tc(num(v), num(other.(UIntValue))))
 //@ schema shift_unbounded(T=UIntValue, M=BitwiseLeftShift, F=shl, LEM=L_uint_sh(num(v), num(other.(UIntValue))))
 //@ schema shift_unbounded(T=UIntValue, M=BitwiseRightShift, F=shr, LEM=L_uint_sh(num(v), num(other.(UIntValue))))
+
+// ---- numeric conversions (C16). mval(x) is the integer part (fraction truncated toward zero) of x.
+//@ typeint Fix64Value: tdiv(self, 100000000)
+//@ typeint UFix64Value: ediv(self.UFix64Value, 100000000)
+//@ typenum Fix128Value: wrap(self.Hi * pow2(64) + self.Lo, 128, true)
+//@ typeint Fix128Value: tdiv(wrap(self.Hi * pow2(64) + self.Lo, 128, true), 1000000000000000000000000)
+//@ typenum UFix128Value: self.Hi * pow2(64) + self.Lo
+//@ typeint UFix128Value: ediv(self.Hi * pow2(64) + self.Lo, 1000000000000000000000000)
+//@ iface NumberValue.ToInt
+//@   option expand=true
+//@   requires valid(self)
+//@   fails[C16] !inrange(mval(self), -pow2(63), pow2(63) - 1) => OverflowError|UnderflowError
+//@   ensures[C16] result == mval(self)
+//@ iface BigNumberValue.ToBigInt
+//@   option expand=true
+//@   requires valid(self)
+//@   nofail
+//@   env MemoryMeteringError
+//@   modifies ghost("metered")
+//@   ensures[C16] fresh(result) && big(result) == mval(self)
+//@ func ConvertUnsigned
+//@   inline
+//@ func ConvertWord
+//@   inline
+//@ func NewIntValueFromInt64
+//@   inline
+//@ func NewUnmeteredIntValueFromBigInt
+//@   inline
+//@ func NewUIntValueFromUint64
+//@   inline
+//@ schema conv_checked(N=Int8, min=-pow2(7), max=pow2(7)-1)
+//@ schema conv_checked(N=Int16, min=-pow2(15), max=pow2(15)-1)
+//@ schema conv_checked(N=Int32, min=-pow2(31), max=pow2(31)-1)
+//@ schema conv_checked(N=Int64, min=-pow2(63), max=pow2(63)-1)
+//@ schema conv_checked(N=Int128, min=-pow2(127), max=pow2(127)-1)
+//@ schema conv_checked(N=Int256, min=-pow2(255), max=pow2(255)-1)
+//@ schema conv_checked(N=UInt8, min=0, max=pow2(8)-1)
+//@ schema conv_checked(N=UInt16, min=0, max=pow2(16)-1)
+//@ schema conv_checked(N=UInt32, min=0, max=pow2(32)-1)
+//@ schema conv_checked(N=UInt64, min=0, max=pow2(64)-1)
+//@ schema conv_checked(N=UInt128, min=0, max=pow2(128)-1)
+//@ schema conv_checked(N=UInt256, min=0, max=pow2(256)-1)
+//@ schema conv_checked(N=Int, min=m, max=m)
+//@ schema conv_checked(N=UInt, min=0, max=m)
+//@ schema conv_word(N=Word8, bits=8)
+//@ schema conv_word(N=Word16, bits=16)
+//@ schema conv_word(N=Word32, bits=32)
+//@ schema conv_word(N=Word64, bits=64)
+//@ schema conv_word(N=Word128, bits=128)
+//@ schema conv_word(N=Word256, bits=256)
+//@ func (Fix128Value).ToBigInt
+//@   nofail
+//@   ensures[C16] fresh(result) && big(result) == num(v)
+//@ func (UFix128Value).ToBigInt
+//@   nofail
+//@   ensures[C16] fresh(result) && big(result) == num(v)
